@@ -3,7 +3,7 @@ From Coq Require Import String.
 From Coq Require Import List Bool Arith NArith.
 Import ListNotations.
 Require Import Str DriverIp.
-Open Scope N_scope.
+Local Open Scope N_scope.
 
 Definition run_case (fields : list str) : str :=
   match fields with
